@@ -651,6 +651,25 @@ func (c15) checkPair(c *core.Ctx, sc *c15scripts, a, b c15val) {
 			}
 		}
 	}
+	// --- NaN: every ordering comparison with a NaN operand is false in Go ("returns the result of the corresponding Go
+	// operation"), for float and for int / uint / bool operands converted to float
+	if (isNaN(A) || isNaN(B)) && c15kind(A) != kNone && c15kind(B) != kNone && c15kind(A) != kChar && c15kind(B) != kChar {
+		for _, tok := range c15rel {
+			r := rel[tok]
+			if r.panicked != "" || r.errName != "" {
+				continue
+			}
+			c.Count("nan_order_checks")
+			if x, _ := r.val.(ugo.Bool); bool(x) {
+				c.Violation("C15|nan-order|"+tok.String()+"|"+tname(A)+"|"+tname(B), "an ordering comparison with NaN is true", wit(tok.String(), "direct", r.key(), "false"))
+			}
+			if s := c15script(sc.bin[tok], A, B); s.panicked == "" && s.errName == "" {
+				if x, _ := s.val.(ugo.Bool); bool(x) {
+					c.Violation("C15|nan-order|"+tok.String()+"|"+tname(A)+"|"+tname(B), "an ordering comparison with NaN is true (script)", wit(tok.String(), "script", s.key(), "false"))
+				}
+			}
+		}
+	}
 	// --- ordering laws (only when all eight results are defined, NaN aside)
 	if isNaN(A) || isNaN(B) || p1 != "" || p2 != "" {
 		return
